@@ -431,3 +431,118 @@ Inductive stack_keys := SKeys (n : N) | SKUnknown.
 Record stack_site := SS { ss_file : string; ss_line : N; ss_keys : stack_keys }.
 Definition single_key_site (s : stack_site) : bool :=
   match ss_keys s with SKeys n => N.leb n 1 | SKUnknown => false end.
+
+(* ------------------------------------------------------------------ *)
+(** typed inventories (tools/globalwrites/typed.go, go/types)
+
+   [escapes] reuse [gwrite]/[gallow] (kind "escape-<how>", detail = callee /
+   field / method): a value of reference-carrying type read from a
+   package-level variable leaves the pure-read position.
+
+   [twrite]: a store through a reference into an object whose static type is
+   reachable from the type of a package-level variable (type-based
+   over-approximation of "may alias global data"), objects provably created
+   in the same function excluded.  An allow line names the type, the
+   operation ("*" = any) and the function (exact, or a prefix when
+   [ta_prefix]). *)
+Record twrite := TW { tw_file : string; tw_line : N; tw_type : string; tw_op : string;
+                      tw_func : string; tw_via : string }.
+Record tallow := TA { ta_type : string; ta_op : string; ta_func : string; ta_prefix : bool }.
+Definition tallow_matches (a : tallow) (w : twrite) : bool :=
+  String.eqb (ta_type a) (tw_type w) &&
+  (String.eqb (ta_op a) "*" || String.eqb (ta_op a) (tw_op w)) &&
+  (if ta_prefix a then String.prefix (ta_func a) (tw_func w) else String.eqb (ta_func a) (tw_func w)).
+Definition tnot_allowed (allowed : list tallow) (ws : list twrite) : list twrite :=
+  filter (fun w => negb (existsb (fun a => tallow_matches a w) allowed)) ws.
+
+(* every [for .. range m] over a Go map outside init(): shape = the strongest
+   way its body can expose the iteration order (exit > append > call > write >
+   pure); an allow line = (function, map type, shape) reviewed as
+   order-insensitive *)
+Record mrange := MR { mr_file : string; mr_line : N; mr_func : string; mr_type : string; mr_shape : string }.
+Record mallow := MA { ma_func : string; ma_type : string; ma_shape : string }.
+Definition mallow_matches (a : mallow) (r : mrange) : bool :=
+  String.eqb (ma_func a) (mr_func r) && String.eqb (ma_type a) (mr_type r) && String.eqb (ma_shape a) (mr_shape r).
+Definition mnot_allowed (allowed : list mallow) (rs : list mrange) : list mrange :=
+  filter (fun r => negb (existsb (fun a => mallow_matches a r) allowed)) rs.
+
+(* ================================================================== *)
+(** * 4. Shared state that IS written: caches and shared tables
+
+   `readonly` is too strong for text/hyphen.dictionariesCache (filled on first
+   use, under a mutex).  What makes such a cache harmless is weaker: every step
+   keeps an invariant of the shared state under which what the step computes
+   does not depend on that state. *)
+Section SharedState.
+  Context {G C : Type}.
+  (* steps that MAY write the shared state, but only in a way that keeps an
+     invariant I under which what they compute does not depend on that state *)
+  Definition benign (I : G -> Prop) (s : @step G C) : Prop :=
+    forall g c, I g ->
+      I (fst (s g c)) /\ forall g', I g' -> snd (s g' c) = snd (s g c).
+End SharedState.
+
+Section MemoCache.
+  Context {K V C : Type}.
+  Variable keqb : K -> K -> bool.
+  Variable f : K -> V.
+  Definition mcache := list (K * V).
+  Fixpoint mlookup (g : mcache) (k : K) : option V :=
+    match g with
+    | [] => None
+    | (k', v) :: r => if keqb k' k then Some v else mlookup r k
+    end.
+  Definition cache_ok (g : mcache) : Prop := forall k v, mlookup g k = Some v -> v = f k.
+  Definition memo_step (k : K) (use : V -> C -> C) : @step mcache C :=
+    fun g c => match mlookup g k with
+               | Some v => (g, use v c)
+               | None => let v := f k in ((k, v) :: g, use v c)
+               end.
+End MemoCache.
+
+Section MemoPrograms.
+  Context {K V C : Type}.
+  Variable keqb : K -> K -> bool.
+  Variable f : K -> V.
+  (* a render = its initial context and the (key, continuation) of each of its lookups *)
+  Definition memo_prog (p : C * list (K * (V -> C -> C))) : C * list (@step (@mcache K V) C) :=
+    (fst p, map (fun ku => memo_step keqb f (fst ku) (snd ku)) (snd p)).
+  (* the same render with the function called directly, no cache *)
+  Definition pure_result (p : C * list (K * (V -> C -> C))) : C :=
+    fold_left (fun c ku => snd ku (f (fst ku)) c) (snd p) (fst p).
+End MemoPrograms.
+
+(* text.CharacterRatio (text/text.go:174-203): the 1ex/font-size ratio of a font
+   description is measured with the render's font configuration and kept in a
+   TextRatioCache keyed by the description only.  html/tree/style.go:370 gives
+   every root style a NEW cache (inherited by the tree): the cache is part of
+   the render's context. *)
+Section RatioCache.
+  Context {K V C G : Type}.
+  Variable keqb : K -> K -> bool.
+  (* context = (the render's own cache, the rest) ; measure = this render's fonts *)
+  Definition ratio_step_local (measure : K -> V) (k : K) (use : V -> C -> C) : @step G (mcache (K:=K) (V:=V) * C) :=
+    fun g mc => let '(m, c) := mc in
+                match mlookup keqb m k with
+                | Some v => (g, (m, use v c))
+                | None => let v := measure k in (g, ((k, v) :: m, use v c))
+                end.
+  (* the seeded variant: one cache for the whole process *)
+  Definition ratio_step_shared (measure : K -> V) (k : K) (use : V -> C -> C) : @step (mcache (K:=K) (V:=V)) C :=
+    memo_step keqb measure k use.
+End RatioCache.
+
+(* hyphen.Hyphener.IterateRunes (text/hyphen/hyphen.go:78-84): the non-standard
+   hyphenation data of a point is reached through a pointer into the patterns
+   shared by every Hyphener of the language;  `data := *index.Data` copies it
+   before `data.Index += index.V`.  Table: pattern -> Index. *)
+Definition hyph_table := list (N * N).
+Fixpoint ht_get (g : hyph_table) (id : N) : N :=
+  match g with [] => 0%N | (i, x) :: r => if N.eqb i id then x else ht_get r id end.
+Fixpoint ht_set (g : hyph_table) (id x : N) : hyph_table :=
+  match g with [] => [] | (i, y) :: r => if N.eqb i id then (i, x) :: r else (i, y) :: ht_set r id x end.
+(* the context receives the cut position *)
+Definition iterate_copy (id v : N) : @step hyph_table N := fun g _ => (g, (ht_get g id + v)%N).
+Definition iterate_inplace (id v : N) : @step hyph_table N :=
+  fun g _ => let x := (ht_get g id + v)%N in (ht_set g id x, x).
+
